@@ -271,7 +271,11 @@ class FieldsIO:
         field = np.asarray(field)
         assert field.dtype == self.dtype, f"expected {self.dtype} dtype, got {field.dtype}"
         assert field.size == self.nItems, f"expected {self.nItems} values, got {field.size}"
-        with open(self.fileName, "ab") as f:
+        # write after the last complete field, dropping the remainder of an interrupted write (if any)
+        offset = self.hSize + self.nFields * (self.tSize + self.fSize)
+        with open(self.fileName, "r+b") as f:
+            f.truncate(offset)
+            f.seek(offset)
             np.array(time, dtype=T_DTYPE).tofile(f)
             field.tofile(f)
 
